@@ -378,6 +378,23 @@ def run(mon, spec):
         if r < 0.3:
             start, final = gen_epochs(rng, 20.0)
             lon2, lat2 = gen_dir(rng)
+            if rng.random() < 0.12 and start != final:
+                # a star that *ends* within 1e-10..1e-7 deg of the pole of
+                # the final epoch: the starting direction is that pole
+                # carried back to the starting epoch (an interior direction
+                # of the starting frame), moved by a hair
+                try:
+                    pa, pb = pe(final, start, rng.uniform(0, 360),
+                                rng.choice((90.0, -90.0)))
+                    h = 10.0 ** rng.uniform(-10, -7)
+                    ang = rng.uniform(0, 2 * math.pi)
+                    lat1 = max(-90.0, min(90.0, pb + h * math.sin(ang)))
+                    lon1 = (pa + h * math.cos(ang)
+                            / max(math.cos(math.radians(pb)), 1e-3)) % 360.0
+                    mon.cls("lands-on-the-pole-of-the-final-epoch",
+                            ("fpole", start, final, lon1, lat1))
+                except Exception:
+                    pass
             if rng.random() < 0.4:
                 lon2 = lon1 + rng.uniform(-3, 3)
                 lat2 = max(-90.0, min(90.0, lat1 + rng.uniform(-3, 3)))
@@ -413,6 +430,10 @@ def run(mon, spec):
                              + rng.choice((0.0, 0.0, 1e-12, 1e-9, 1e-6))
                              * rng.choice((-1, 1))))
             i0 = min(180.0, max(0.0, i0))
+            if i0 == 0.0 and rng.random() < 0.5:
+                i0 = -0.0          # the same inclination, the other zero
+            if rng.random() < 0.08:
+                e1 = e0            # same equinox: the identity
             p = ["elements", [e0, e1, i0, rng.uniform(0, 360),
                               rng.uniform(0, 360)]]
         mon.begin(p[0], p[1])
